@@ -73,6 +73,15 @@ func (f *specForest) treesOf(hashes []Hash) []int {
 //   every verifier holding the same roots accepts; Verify reports exactly the trees containing the targets;
 //   Pollard and MapPollard return identical proofs.
 func checkProve(res *racResult, w *racWorld, h racHistory, req []Hash) {
+	checkProveTagged(res, w, h, req, "")
+}
+
+// checkProveTagged: tag is appended to the clause names (used to separate classes of inputs).
+func checkProveTagged(res *racResult, w *racWorld, h racHistory, req []Hash, tag string) {
+	if tag != "" {
+		res.tagged(tag, func(tmp *racResult) { checkProveTagged(tmp, w, h, req, "") })
+		return
+	}
 	in := map[string]interface{}{"history": h.String(), "request": shortHashes(req)}
 	want, err := w.spec.CanonProof(req)
 	if err != nil {
